@@ -230,6 +230,12 @@ def reobsWhy (cfg : Cfg) (topic : Bytes) (rc : Option Receipt) (bt : Option Nat)
         | none => "reobs-not-final"
   | _, _ => "forwarded-unknown"
 
+/-- the rendered message `m` has the transaction, sequence and emitter of `x` (but may differ elsewhere) -/
+def sameIdentity (x : Msg) (m : String) : Bool :=
+  match m.splitOn "," with
+  | [tx, _, _, seq, _, _, em, _, _] => tx == toHex x.tx && seq == toString x.seq && em == toHex x.emitter
+  | _ => false
+
 structure SpecIn where
   heads : List Nat
   fwd : List String
@@ -260,13 +266,22 @@ def specEval (c : CaseSt) (op : String) (topic : Bytes) (i : SpecIn) : CaseSt :=
       let a := nodeAns i.ans e.key.tx
       if !ready then
         if !inPend e then
-          c := c.addSpec "abandoned-not-ready" s!"{op}#{c.lines} message {showKey e.key} at height {e.height} (conf {conf}) left pending at head {H} before its depth was reached"
+          match removeOne (showMsg e.msg) fwdLeft with
+          | some l =>
+            fwdLeft := l
+            c := c.addSpec "forwarded-not-final" s!"{op}#{c.lines} message {showKey e.key} at height {e.height} needs {conf} confirmations but was forwarded at head {H}"
+          | none =>
+            c := c.addSpec "abandoned-not-ready" s!"{op}#{c.lines} message {showKey e.key} at height {e.height} (conf {conf}) left pending at head {H} before its depth was reached"
         else keep := keep ++ [e]
       else if goodFor a e then
         match removeOne (showMsg e.msg) fwdLeft with
         | some l => fwdLeft := l
         | none =>
-          c := c.addSpec "final-not-forwarded" s!"{op}#{c.lines} message {showKey e.key} height {e.height} conf {conf}: head {H} reached its depth and the receipt still points to its block with status 1, yet it was not forwarded (still pending: {inPend e})"
+          match fwdLeft.find? (sameIdentity e.msg) with
+          | some m =>
+            c := c.addSpec "forwarded-altered" s!"{op}#{c.lines} message {showKey e.key} was forwarded as {m} instead of {showMsg e.msg}"
+          | none =>
+            c := c.addSpec "final-not-forwarded" s!"{op}#{c.lines} message {showKey e.key} height {e.height} conf {conf}: head {H} reached its depth and the receipt still points to its block with status 1, yet it was not forwarded (still pending: {inPend e})"
       else if transient a then
         if inPend e then keep := keep ++ [e]
         else if e.height + conf + cfg.maxWait ≤ H then pure ()
